@@ -5,6 +5,14 @@
 //@source src/popen.rs
 use std::result;
 //@enum PopenError
+impl vstd::std_specs::convert::FromSpecImpl<io::Error> for PopenError {
+    open spec fn obeys_from_spec() -> bool { true }
+    open spec fn from_spec(v: io::Error) -> Self { PopenError::IoError(v) }
+}
+impl From<io::Error> for PopenError {
+//@fn impl(From<io::Error>+for+PopenError)::from
+//@end
+}
 //@item Result
 pub use self::Result as PopenResult;
 pub mod os {
@@ -74,6 +82,8 @@ pub open spec fn in_ok<T: Into<InputRedirection>>(cur: Redirection, new: T) -> b
     // the documented accepting cases of Exec::stdin: first setting, or Pipe repeated
     &&& <T as IntoSpec<_>>::obeys_into_spec()
     &&& ((cur is None) || (cur is Pipe && IntoSpec::into_spec(new) == InputRedirection::AsRedirection(Redirection::Pipe)))
+    // Redirection::Merge is only allowed for output streams (the conversion panics)
+    &&& !(IntoSpec::into_spec(new) is AsRedirection && IntoSpec::into_spec(new)->AsRedirection_0 is Merge)
 }
 pub open spec fn out_ok<T: Into<OutputRedirection>>(cur: Redirection, new: T) -> bool {
     &&& <T as IntoSpec<_>>::obeys_into_spec()
@@ -219,6 +229,258 @@ impl WriteAdapter {
     ensures final(self).0.stdin.is_none(), final(self).0.stdout == old(self).0.stdout, final(self).0.stderr == old(self).0.stderr, final(self).0.child_state == old(self).0.child_state, final(self).0.detached == old(self).0.detached, //[C12]
 //@end
 }
+
+//@struct pipeline::Pipeline pubfields
+//@struct pipeline::ReadPipelineAdapter pubfields
+//@struct pipeline::WritePipelineAdapter pubfields
+impl ReadPipelineAdapter {
+//@fn pipeline::impl(Drop+for+ReadPipelineAdapter)::drop optional rename=drop_impl
+    requires old(self).0@.len() >= 1,
+    ensures final(self).0@.len() == old(self).0@.len(),
+        forall|i: int| 0 <= i < old(self).0@.len() - 1 ==> (#[trigger] final(self).0@[i]) == old(self).0@[i],
+        ({ let n = old(self).0@.len() - 1; let a = old(self).0@[n]; let b = final(self).0@[n];
+           b.stdout.is_none() && b.stdin == a.stdin && b.stderr == a.stderr && b.child_state == a.child_state && b.detached == a.detached }), //[C12]
+//@end
+}
+impl WritePipelineAdapter {
+//@fn pipeline::impl(Drop+for+WritePipelineAdapter)::drop optional rename=drop_impl
+    requires old(self).0@.len() >= 1,
+    ensures final(self).0@.len() == old(self).0@.len(),
+        forall|i: int| 1 <= i < old(self).0@.len() ==> (#[trigger] final(self).0@[i]) == old(self).0@[i],
+        ({ let a = old(self).0@[0]; let b = final(self).0@[0];
+           b.stdin.is_none() && b.stdout == a.stdout && b.stderr == a.stderr && b.child_state == a.child_state && b.detached == a.detached }), //[C12]
+//@end
+}
 //@include models/buildw_glue.rs
+
+// ---------------------------------------------------------------- C13: what "stage i feeds stage i+1 and nothing else" means
+pub open spec fn exec_argv(e: Exec) -> Seq<Seq<u8>> { bytes_of(e.args@.insert(0, e.command)) }
+// the commands of a pipeline must leave their connecting streams alone, and carry no input data of their own (documented panics otherwise)
+pub open spec fn cmds_ok(cmds: Seq<Exec>, has_stderr_file: bool) -> bool {
+    &&& cmds.len() >= 2
+    &&& forall|i: int| 0 <= i < cmds.len() ==> {
+            &&& (#[trigger] cmds[i]).stdin_data.is_none() && cmds[i].config.stdin is None
+            &&& (cmds[i].config.stdout is None || (i < cmds.len() - 1 && cmds[i].config.stdout is Pipe))
+            &&& (has_stderr_file ==> cmds[i].config.stderr is None)
+        }
+}
+// the stage before stage j (a separate function symbol, so that instantiating chain_ok does not feed its own trigger)
+pub open spec fn prev_st(s: Seq<Stage>, j: int) -> Stage { s[j - 1] }
+pub open spec fn chain_ok(s: Seq<Stage>, lo: int, hi: int) -> bool {
+    // every stage after the first reads exactly the pipe the previous stage writes
+    forall|j: int| lo < j < hi ==> prev_st(s, j).stdout is NewPipe && (#[trigger] s[j]).stdin == Given::Obj(prev_st(s, j).stdout->NewPipe_0)
+}
+// R6: `self.cmds.into_iter().map(|cmd| cmd.stderr(Redirection::RcFile(Rc::clone(&stderr_to)))).collect()` = Exec::stderr applied to every element
+#[verifier::external_body]
+pub fn map_stderr(cmds: Vec<Exec>, stderr_to: &Rc<File>) -> (r: Vec<Exec>)
+    requires forall|i: int| 0 <= i < cmds@.len() ==> (#[trigger] cmds@[i]).config.stderr is None,
+    ensures r@.len() == cmds@.len(),
+        forall|i: int| 0 <= i < cmds@.len() ==> {
+            let a = cmds@[i]; let b = #[trigger] r@[i];
+            &&& b.command == a.command && b.args == a.args && b.stdin_data == a.stdin_data && b.config.detached == a.config.detached
+            &&& b.config.stdin == a.config.stdin && b.config.stdout == a.config.stdout && b.config.env == a.config.env && b.config.cwd == a.config.cwd
+            &&& b.config.stderr == Redirection::RcFile(*stderr_to)
+        },
+{ unimplemented!() }
+
+impl Pipeline {
+//@fn pipeline::Pipeline::new vis=pub
+    ensures r.cmds@ == seq![cmd1, cmd2], r.stdin is None, r.stdout is None, r.stderr_file.is_none(), r.stdin_data.is_none(), //[C13]
+//@end
+//@fn pipeline::Pipeline::stdin vis=pub
+//@selfmut
+//@sreplace 1 /pub fn stdin\(/ => /pub fn stdin<T: Into<InputRedirection>>(/
+//@sreplace 1 /stdin: impl Into<InputRedirection>/ => /stdin: T/
+    requires <T as IntoSpec<_>>::obeys_into_spec(), !(IntoSpec::into_spec(stdin) is AsRedirection && IntoSpec::into_spec(stdin)->AsRedirection_0 is Merge),
+    ensures r.cmds == self.cmds, r.stdout == self.stdout, r.stderr_file == self.stderr_file,
+        match IntoSpec::into_spec(stdin) {
+            InputRedirection::AsRedirection(new) => r.stdin == new && r.stdin_data == self.stdin_data,
+            InputRedirection::FeedData(data) => r.stdin is Pipe && r.stdin_data == Some(data),
+        },
+//@end
+//@fn pipeline::Pipeline::stdout vis=pub
+//@selfmut
+//@sreplace 1 /pub fn stdout\(/ => /pub fn stdout<T: Into<OutputRedirection>>(/
+//@sreplace 1 /stdout: impl Into<OutputRedirection>/ => /stdout: T/
+    requires <T as IntoSpec<_>>::obeys_into_spec(),
+    ensures r.cmds == self.cmds, r.stdin == self.stdin, r.stderr_file == self.stderr_file, r.stdin_data == self.stdin_data, r.stdout == IntoSpec::into_spec(stdout).0,
+//@end
+//@fn pipeline::Pipeline::stderr_to vis=pub
+//@selfmut
+    ensures r.cmds == self.cmds, r.stdin == self.stdin, r.stdout == self.stdout, r.stdin_data == self.stdin_data, r.stderr_file == Some(to),
+//@end
+//@fn pipeline::Pipeline::check_no_stdin_data
+    requires self.stdin_data.is_none(),
+//@end
+
+//@fn pipeline::Pipeline::popen vis=pub world=mut
+//@selfmut
+//@rreplace 1 /this\s*\.cmds\s*\.into_iter\(\)\s*\.map\(\|cmd\| cmd\.stderr\(Redirection::RcFile\(Rc::clone\(&stderr_to\)\)\)\)\s*\.collect\(\)/ => /map_stderr(this.cmds, &stderr_to)/
+//@rreplace 1 /this\.cmds\.drain\(\.\.1\)\.next\(\)\.unwrap\(\)/ => /this.cmds.remove(0)/
+//@rreplace 1 /this\.cmds\.drain\(this\.cmds\.len\(\) - 1\.\.\)\.next\(\)\.unwrap\(\)/ => /this.cmds.pop().unwrap()/
+//@rreplace 1 /for \(idx, mut runner\) in this\.cmds\.into_iter\(\)\.enumerate\(\)/ => /let ghost cmds1 = this.cmds@; let ghost b = w.s.stages.len() as int; let mut idx: usize = 0; while idx < cnt/
+//@rreplace 1 /if idx != 0 \{/ => /let mut runner = this.cmds.remove(0); if idx != 0 {/
+//@rreplace 1 /Ok\(p\) => ret\.push\(p\),/ => /Ok(p) => { ret.push(p); idx += 1; }/
+//@rreplace 1 /return Err\(e\);/ => /drop_glue_vec_popen(ret, Tracked(w)); return Err(e);/
+//@rreplace ? /for i in 0\.\.ret\.len\(\)/ => /for i in it: 0..ret.len()/
+    requires
+        self.stdin_data.is_none(), cmds_ok(self.cmds@, self.stderr_file.is_some()), !(self.stdin is Merge),
+        old(w).s.stages.len() + self.cmds@.len() < 0xffff_ffff,
+    ensures match r {
+        Ok(v) => ({
+            let b = old(w).s.stages.len() as int; let n = self.cmds@.len() as int; let s = final(w).s.stages;
+            &&& v@.len() == n && s.len() == b + n
+            &&& forall|j: int| 0 <= j < b ==> (#[trigger] s[j]) == old(w).s.stages[j]
+            &&& forall|i: int| 0 <= i < n ==> {
+                    &&& running(#[trigger] v@[i], b + i) && v@[i].detached == self.cmds@[i].config.detached
+                    // the parent keeps nothing in between
+                    &&& (i < n - 1 ==> v@[i].stdout.is_none()) && (i > 0 ==> v@[i].stdin.is_none()) //[C13,C08]
+                    &&& (self.stderr_file.is_some() ==> v@[i].stderr.is_none()) && (self.stderr_file.is_none() ==> v@[i].stderr.is_some() == (self.cmds@[i].config.stderr is Pipe))
+                }
+            &&& forall|j: int| b <= j < b + n ==> {
+                    &&& (#[trigger] s[j]).detached == self.cmds@[j - b].config.detached && !s[j].reaped
+                    // the stages run the commands in order
+                    &&& s[j].argv == exec_argv(self.cmds@[j - b]) //[C13]
+                    // the shared standard-error sink receives every stage's error output
+                    &&& (self.stderr_file.is_some() ==> s[j].stderr == Given::Obj(self.stderr_file.unwrap().obj@)) //[C13]
+                }
+            // the pipeline's configured input reaches only the first command, its configured output receives only the last command's output
+            &&& s[b].stdin == given(self.stdin, v@[0].stdin) && (self.stdin is Pipe <==> v@[0].stdin.is_some()) //[C13]
+            &&& s[b + n - 1].stdout == given(self.stdout, v@[n - 1].stdout) && (self.stdout is Pipe <==> v@[n - 1].stdout.is_some()) //[C13]
+            // each command's standard output feeds exactly the next command's standard input
+            &&& chain_ok(s, b, b + n) //[C13]
+        }),
+        Err(e) => ({
+            let b = old(w).s.stages.len() as int; let n = self.cmds@.len() as int; let s = final(w).s.stages;
+            // no later command was started, and every command already started has been waited for (unless detached)
+            &&& b <= s.len() < b + n //[C14]
+            &&& forall|j: int| b <= j < s.len() ==> !(#[trigger] s[j]).detached ==> s[j].reaped //[C14]
+            &&& forall|j: int| 0 <= j < b ==> (#[trigger] s[j]).argv == old(w).s.stages[j].argv
+        }),
+    }
+//@loop 0
+        invariant
+            0 <= idx <= cnt, cnt == cmds1.len(), cnt == this.cmds@.len() + idx, cnt >= 2, cnt == self.cmds@.len(),
+            this.cmds@ == cmds1.subrange(idx as int, cnt as int),
+            ret@.len() == idx, b == old(w).s.stages.len(), b + cnt < 0xffff_ffff,
+            w.s.stages.len() == b + idx, forall|j: int| 0 <= j < b ==> (#[trigger] w.s.stages[j]) == old(w).s.stages[j],
+            // what the prepared commands look like
+            forall|i: int| 0 <= i < cnt ==> {
+                let c = #[trigger] cmds1[i]; let o = self.cmds@[i];
+                &&& c.command == o.command && c.args == o.args && c.stdin_data.is_none() && c.config.detached == o.config.detached
+                &&& c.config.stdin == (if i == 0 { self.stdin } else { Redirection::None })
+                &&& (i == cnt - 1 ==> c.config.stdout == self.stdout) && (i < cnt - 1 ==> c.config.stdout is None || c.config.stdout is Pipe)
+                &&& (self.stderr_file.is_some() ==> c.config.stderr is RcFile && c.config.stderr->RcFile_0.obj@ == self.stderr_file.unwrap().obj@) && (self.stderr_file.is_none() ==> c.config.stderr == o.config.stderr)
+            },
+            // the handles of what has been started so far
+            forall|i: int| 0 <= i < idx ==> {
+                let p = #[trigger] ret@[i];
+                &&& running(p, b + i) && p.detached == self.cmds@[i].config.detached
+                &&& (i > 0 ==> p.stdin.is_none()) && (i < idx - 1 ==> p.stdout.is_none())
+                &&& (self.stderr_file.is_some() ==> p.stderr.is_none()) && (self.stderr_file.is_none() ==> p.stderr.is_some() == (self.cmds@[i].config.stderr is Pipe))
+            },
+            // the stages started so far
+            forall|j: int| b <= j < b + idx ==> {
+                let st = #[trigger] w.s.stages[j];
+                &&& st.detached == self.cmds@[j - b].config.detached && !st.reaped && st.argv == exec_argv(self.cmds@[j - b])
+                &&& (j < b + idx - 1 ==> st.stdout is NewPipe)
+                &&& (self.stderr_file.is_some() ==> st.stderr == Given::Obj(self.stderr_file.unwrap().obj@))
+            },
+            // the last one still has its stdout pipe: the next command will read it
+            idx > 0 && idx < cnt ==> ret@[idx - 1].stdout.is_some() && w.s.stages[b + idx - 1].stdout == Given::NewPipe(ret@[idx - 1].stdout.unwrap().obj@),
+            idx > 0 ==> w.s.stages[b].stdin == given(self.stdin, ret@[0].stdin) && (self.stdin is Pipe <==> ret@[0].stdin.is_some()),
+            idx == cnt ==> w.s.stages[b + cnt - 1].stdout == given(self.stdout, ret@[cnt - 1].stdout) && (self.stdout is Pipe <==> ret@[cnt - 1].stdout.is_some()),
+            chain_ok(w.s.stages, b, b + idx),
+        decreases cnt - idx,
+//@loop 1 optional
+        invariant
+            ret@.len() == idx, it.iter.end == idx, idx < cnt, w.s.stages.len() == b + idx, b == old(w).s.stages.len(), cnt == self.cmds@.len(),
+            forall|j: int| 0 <= j < b ==> (#[trigger] w.s.stages[j]) == old(w).s.stages[j],
+            forall|j: int| b <= j < b + idx ==> (#[trigger] w.s.stages[j]).detached == ret@[j - b].detached && !w.s.stages[j].reaped,
+            forall|k: int| 0 <= k < ret@.len() ==> running(#[trigger] ret@[k], b + k),
+            forall|k: int| 0 <= k < i ==> holds_no_pipe(#[trigger] ret@[k]),
+//@end
+
+//@fn pipeline::Pipeline::join vis=pub world=mut
+//@rreplace 1 /v\.last_mut\(\)\.unwrap\(\)\.wait\(Tracked\(w\)\)/ => /{ let ghost b_ = old(w).s.stages.len() as int; let r_ = v.last_mut().unwrap().wait(Tracked(w)); let ghost v1_ = v@; drop_glue_vec_popen(v, Tracked(w)); proof { assert forall|j: int| b_ <= j < w.s.stages.len() && !(#[trigger] w.s.stages[j]).detached implies w.s.stages[j].reaped by { assert(reaped_or_detached(v1_[j - b_], w.s)); } } r_ }/
+    requires
+        self.stdin_data.is_none(), cmds_ok(self.cmds@, self.stderr_file.is_some()), !(self.stdin is Merge),
+        old(w).s.stages.len() + self.cmds@.len() < 0xffff_ffff,
+        // join() hands no pipe to anybody: asking for one would leave a child waiting on it
+        !(self.stdin is Pipe) && !(self.stdout is Pipe), self.stderr_file.is_some() || forall|i: int| 0 <= i < self.cmds@.len() ==> !((#[trigger] self.cmds@[i]).config.stderr is Pipe),
+    ensures
+        // join returns only after all commands have exited (those not detached have been waited for)
+        r is Ok ==> final(w).s.stages.len() == old(w).s.stages.len() + self.cmds@.len()
+            && forall|j: int| old(w).s.stages.len() <= j < final(w).s.stages.len() ==> !(#[trigger] final(w).s.stages[j]).detached ==> final(w).s.stages[j].reaped, //[C12,C13]
+        // ... and the last command is always waited for: its status is what join returns
+        r is Ok ==> final(w).s.stages.last().reaped, //[C13]
+//@end
+
+//@fn pipeline::Pipeline::stream_stdout vis=pub world=mut
+//@sreplace 1 /PopenResult<impl Read>/ => /PopenResult<ReadPipelineAdapter>/
+    requires
+        self.stdin_data.is_none(), cmds_ok(self.cmds@, self.stderr_file.is_some()), !(self.stdin is Merge),
+        old(w).s.stages.len() + self.cmds@.len() < 0xffff_ffff,
+    ensures
+        r is Ok ==> r->Ok_0.0@.len() == self.cmds@.len() && all_stage_ok(r->Ok_0.0@, final(w).s) && r->Ok_0.0@.last().stdout.is_some(),
+        // what the adapter's drop glue relies on, when no other pipe was asked for
+        r is Ok && !(self.stdin is Pipe) && self.stderr_file.is_some() ==> forall|i: int| 0 <= i < r->Ok_0.0@.len() ==> (#[trigger] r->Ok_0.0@[i]).stdin.is_none() && r->Ok_0.0@[i].stderr.is_none() && (i < r->Ok_0.0@.len() - 1 ==> r->Ok_0.0@[i].stdout.is_none()),
+//@end
+//@fn pipeline::Pipeline::stream_stdin vis=pub world=mut
+//@sreplace 1 /PopenResult<impl Write>/ => /PopenResult<WritePipelineAdapter>/
+    requires
+        self.stdin_data.is_none(), cmds_ok(self.cmds@, self.stderr_file.is_some()), 
+        old(w).s.stages.len() + self.cmds@.len() < 0xffff_ffff,
+    ensures
+        r is Ok ==> r->Ok_0.0@.len() == self.cmds@.len() && all_stage_ok(r->Ok_0.0@, final(w).s) && r->Ok_0.0@[0].stdin.is_some(),
+        r is Ok && !(self.stdout is Pipe) && self.stderr_file.is_some() ==> forall|i: int| 0 <= i < r->Ok_0.0@.len() ==> (#[trigger] r->Ok_0.0@[i]).stdout.is_none() && r->Ok_0.0@[i].stderr.is_none() && (i > 0 ==> r->Ok_0.0@[i].stdin.is_none()),
+//@end
+
+//@fn pipeline::Pipeline::setup_communicate world=mut
+//@selfmut
+//@rreplace 1 /crate::popen::make_pipe\(\)/ => /popen_m::make_pipe()/
+    requires
+        cmds_ok(self.cmds@, true), self.stderr_file.is_none(), !(self.stdin is Merge), self.stdin_data.is_some() == (self.stdin is Pipe),
+        old(w).s.stages.len() + self.cmds@.len() < 0xffff_ffff,
+    ensures
+        r is Ok ==> ({
+            let v = r->Ok_0.1@; let b = old(w).s.stages.len() as int; let n = self.cmds@.len() as int; let s = final(w).s.stages;
+            &&& v.len() == n && s.len() == b + n && all_stage_ok(v, final(w).s)
+            // the communicator took every pipe end: nothing is left on the handles (C12 wait-safety of the later drops)
+            &&& forall|i: int| 0 <= i < n ==> holds_no_pipe(#[trigger] v[i]) && running(v[i], b + i) && v[i].detached == self.cmds@[i].config.detached
+            &&& forall|j: int| b <= j < b + n ==> (#[trigger] s[j]).detached == self.cmds@[j - b].config.detached && !s[j].reaped
+            &&& r->Ok_0.0.out_piped@ && r->Ok_0.0.err_piped@
+        }),
+        r is Err ==> b_le(old(w).s.stages.len() as int, final(w).s.stages.len() as int)
+            && forall|j: int| old(w).s.stages.len() <= j < final(w).s.stages.len() ==> !(#[trigger] final(w).s.stages[j]).detached ==> final(w).s.stages[j].reaped, //[C14]
+//@end
+
+//@fn pipeline::Pipeline::capture vis=pub world=mut
+//@rreplace 1 /let status = v\[vlen - 1\]\.wait\(Tracked\(w\)\)\?;/ => /let status = match v[vlen - 1].wait(Tracked(w)) { Ok(s_) => s_, Err(e_) => { drop_glue_vec_popen(v, Tracked(w)); return Err(e_); } }; let ghost b_ = old(w).s.stages.len() as int; let ghost v1_ = v@; drop_glue_vec_popen(v, Tracked(w)); proof { assert forall|j: int| b_ <= j < w.s.stages.len() && !(#[trigger] w.s.stages[j]).detached implies w.s.stages[j].reaped by { assert(reaped_or_detached(v1_[j - b_], w.s)); } }/
+//@rreplace 1 /let \(out, err\) = comm\.read\(\)\?;/ => /let (out, err) = match comm.read() { Ok(x_) => x_, Err(e_) => { let ghost b_ = old(w).s.stages.len() as int; let ghost v1_ = v@; drop_glue_vec_popen(v, Tracked(w)); proof { assert forall|j: int| b_ <= j < w.s.stages.len() && !(#[trigger] w.s.stages[j]).detached implies w.s.stages[j].reaped by { assert(reaped_or_detached(v1_[j - b_], w.s)); } } return Err(PopenError::from(e_)); } };/
+    requires
+        cmds_ok(self.cmds@, true), self.stderr_file.is_none(), !(self.stdin is Merge), self.stdin_data.is_some() == (self.stdin is Pipe),
+        old(w).s.stages.len() + self.cmds@.len() < 0xffff_ffff,
+    ensures
+        // capture returns the last command's status, and only after all commands have been waited for; on every path nothing is left unreaped
+        final(w).s.stages.len() >= old(w).s.stages.len(),
+        forall|j: int| old(w).s.stages.len() <= j < final(w).s.stages.len() ==> !(#[trigger] final(w).s.stages[j]).detached ==> final(w).s.stages[j].reaped, //[C12,C13,C14]
+        r is Ok ==> final(w).s.stages.len() == old(w).s.stages.len() + self.cmds@.len() && final(w).s.stages.last().reaped, //[C13]
+//@end
+}
+pub open spec fn b_le(a: int, b: int) -> bool { a <= b }
+
+// composition: however a pipeline is put together, its stage sequence is the concatenation of the operands' stages (C13)
+impl Exec {
+//@fn exec::impl(BitOr+for+Exec)::bitor vis=pub
+    ensures r.cmds@ == seq![self, rhs], r.stdin is None, r.stdout is None, r.stderr_file.is_none(), r.stdin_data.is_none(), //[C13]
+//@end
+}
+impl Pipeline {
+//@fn pipeline::impl(BitOr<Exec>+for+Pipeline)::bitor vis=pub rename=bitor_exec
+//@selfmut
+    ensures r.cmds@ == self.cmds@.push(rhs), r.stdin == self.stdin, r.stdout == self.stdout, r.stderr_file == self.stderr_file, r.stdin_data == self.stdin_data, //[C13]
+//@end
+}
 } // verus!
 fn main() {}
